@@ -79,16 +79,21 @@ impl Source for MioListener {
         match *self {
             MioListener::Tcp(ref mut lst) => lst.deregister(registry),
             #[cfg(unix)]
-            MioListener::Uds(ref mut lst) => {
-                let res = lst.deregister(registry);
+            MioListener::Uds(ref mut lst) => lst.deregister(registry),
+        }
+    }
+}
 
-                // cleanup file path
-                if let Ok(addr) = lst.local_addr() {
-                    if let Some(path) = addr.as_pathname() {
-                        let _ = std::fs::remove_file(path);
-                    }
+#[cfg(unix)]
+impl Drop for MioListener {
+    fn drop(&mut self) {
+        // Clean up the socket file when the listener is closed. (Deregistration is also how the
+        // server pauses and backs off after accept errors, so the path must survive it.)
+        if let MioListener::Uds(ref lst) = *self {
+            if let Ok(addr) = lst.local_addr() {
+                if let Some(path) = addr.as_pathname() {
+                    let _ = std::fs::remove_file(path);
                 }
-                res
             }
         }
     }
